@@ -952,6 +952,55 @@ pub fn oracle_c05(t: &BuiltTree, delivered: usize, before: &Obs, after: &Obs) ->
     } else if after.code == 1 {
         f.push("block reported as added on the longest chain but the tip did not move".to_string());
     }
+    // conversely: a block whose arrival completes a chain that meets the criteria must be adopted
+    // (candidate = path from the delivered block down to the first block of the old chain, computed
+    // from previous-block hashes only, not from the node's on-chain flags)
+    {
+        let d = &t.blocks[delivered];
+        let stored_before: BTreeSet<SaitoHash> = a.blocks.iter().map(|x| x.0).collect();
+        if a.tip_id != 0 && !stored_before.contains(&d.hash) && b.tip_hash != d.hash {
+            let old_list = chain_from_tip(a, t);
+            let old_chain: BTreeSet<SaitoHash> = old_list.iter().map(|&i| t.blocks[i].hash).collect();
+            let mut seg = vec![delivered];
+            let mut cur = d.previous_block_hash;
+            let mut connected = false;
+            loop {
+                if old_chain.contains(&cur) {
+                    connected = true;
+                    break;
+                }
+                match by_hash.get(&cur) {
+                    Some(&i) if stored_before.contains(&cur) => {
+                        seg.push(i);
+                        cur = t.blocks[i].previous_block_hash;
+                    }
+                    _ => break,
+                }
+            }
+            if connected {
+                let old_seg: Vec<usize> = old_list.iter().cloned().take_while(|&i| t.blocks[i].hash != cur).collect();
+                let nbf: u128 = seg.iter().map(|&i| t.blocks[i].burnfee as u128).sum();
+                let obf: u128 = old_seg.iter().map(|&i| t.blocks[i].burnfee as u128).sum();
+                let mut stored_with: BTreeSet<SaitoHash> = stored_before.clone();
+                stored_with.insert(d.hash);
+                if seg.len() > old_seg.len()
+                    && nbf >= obf
+                    && d.id > a.tip_id
+                    && d.id > a.tip_id.saturating_sub(t.spec.gp)
+                    && seg.iter().all(|&i| !t.eff_invalid[i])
+                    && gt_ok_at(t, &stored_with, delivered)
+                {
+                    f.push(format!(
+                        "block {} completes a longer ({} > {}), heavy enough, valid chain with enough golden tickets but was not adopted (answer code {})",
+                        delivered + 1,
+                        seg.len(),
+                        old_seg.len(),
+                        after.code
+                    ));
+                }
+            }
+        }
+    }
     // an orphan (parent unknown, not a first block) must be inert
     let d = &t.blocks[delivered];
     let parent_known = d.previous_block_hash == [0u8; 32]
@@ -1480,7 +1529,10 @@ pub async fn run_property(profile: &Profile, args: &Args) {
             // the Coq chain model (model/ChainPurge.v) covers all block ids; histories in which a
             // block arrives before its parent stay outside (listed finding orphan-branch).
             // Row 1 of every observation gets genesis_block_id appended for the comparison.
-            if out.first_orphan.is_none() || out.first_orphan_effect.is_none() || std::env::var("VERIF_MODEL_ORPHANS").is_ok() {
+            // (a history is left out once a delivery that is not connected to the stored chain - an orphan,
+            // or a block on a fork whose fork point was purged - has had an effect: from then on the node's
+            // state is inconsistent by the listed findings and validity is no longer a static bit)
+            if out.first_orphan_effect.is_none() || std::env::var("VERIF_MODEL_ORPHANS").is_ok() {
                 let rows_p: Vec<Vec<Vec<u64>>> = out
                     .rows
                     .iter()
